@@ -8,13 +8,19 @@ import (
 func (p *Pool) Send(ctx context.Context, e Event) {
 	e.ctx = ctx
 
-	p.sendWg.Add(1)
-	defer p.sendWg.Done()
-
-	// Nothing to send to before the first Run and after Stop.
+	// Nothing to send to before the first Run and after Stop. The check and the
+	// registration are one step with respect to Stop: a Send that registers
+	// while Stop is already waiting makes sync.WaitGroup panic.
+	p.sendM.RLock()
 	if p.ctx == nil || p.ctx.Err() != nil {
+		p.sendM.RUnlock()
+
 		return
 	}
+
+	p.sendWg.Add(1)
+	p.sendM.RUnlock()
+	defer p.sendWg.Done()
 
 	select {
 	case <-p.ctx.Done():
